@@ -135,7 +135,7 @@ def input_class(arrays):
     return "%s/rank%d/n%d" % (dt, rank, len(arrays))
 
 
-def compare(result, ref_cells, shape, sigbase, check_values=True, stats=None, floor=None):
+def compare(result, ref_cells, shape, sigbase, check_values=True, stats=None, floor=None, exact=False):
     """Compare an implementation result with reference cells.
 
     Returns a list of Failures with signatures `<sigbase>|<kind>`.  `stats`, if given, is a
@@ -177,6 +177,10 @@ def compare(result, ref_cells, shape, sigbase, check_values=True, stats=None, fl
                 stats["loose"] = stats.get("loose", 0) + 1
         if isinstance(x, float) and (math.isnan(x) or math.isinf(x)):
             fails.append(Failure("%s|value" % sigbase, "cell %d is %r, expected %r" % (i, x, float(ref.v))))
+            break
+        if exact and F(x) != ref.v:
+            # integer arithmetic on integer inputs is exact: no tolerance applies
+            fails.append(Failure("%s|value" % sigbase, "cell %d is %r, the exact integer result is %d" % (i, x, ref.v)))
             break
         if not (V.close(x, ref) if floor is None else V.close(x, ref, floor)):
             fails.append(
